@@ -72,7 +72,11 @@ MANIFEST = dict(
          'seeded c12_5 is refuted). Executed: every operation x 14 exception classes (4 errno values of plain OSError, '
          '8 subclasses, FileNotFoundError, KeyboardInterrupt) x persistent / refused 1, 2, 3, 5 times, single writers, '
          'BSP.save and reuse histories, compared with the tree machine of the class; reuse histories of one writer '
-         'interleaved with an open second writer at every pair of operation boundaries (oracle only).',
+         'interleaved with an open second writer at every pair of operation boundaries, judged by the oracle and compared '
+         'with prunt aw_proto (SM/AtomicProduct.v): c12_product_isolated proves, for every history of uses of A and every '
+         'interleaving with B, that B\'s destination is old or complete new, that A and B never hold the same temp name, '
+         'that the temp file B holds keeps exactly what B has written, and that nothing else changes (the round-1 '
+         'invariant, re-based at A\'s destination, survives the restart of A).',
     note='Trusted: Coq kernel + vm_compute, translate/c12_atomic.py (transliteration only: the symbolic execution is in '
          'the kernel; both are tied by the executed correspondences, the CPython one by sampling), the interposer in checks/c12.py (FileIO subclass + patched '
          'io.open/os.*), POSIX rename atomicity and O_EXCL (modelled, not verified), page cache surviving a process kill '
@@ -90,8 +94,10 @@ MANIFEST = dict(
          'for all classes and the restriction is void). InterruptedError / BlockingIOError are not injected into raw writes '
          '(io.BufferedWriter gives them a meaning of its own); a persistent FileExistsError at open is not injected (the '
          'unbounded temp-name loop cannot end). The reuse theorems need proto_ok of the uncollapsed protocol: histories of '
-         'an object WITH a retry loop are executed and compared, not proved. The reuse x concurrent-writer product is '
-         'oracle only. Loops other than `for <name> in range(<literal>)`, a loop variable that is read, `raise <OSError '
+         'an object WITH a retry loop are executed and compared, not proved. The reuse x concurrent-writer product theorem is '
+         'for protocols without retries (proto_safe), one concurrent writer, and a history that ends at the first use that '
+         'is killed or leaves its temp file; A\'s own destination across the history is covered by c12_reuse_history (A '
+         'alone) and by the oracle (A with B). Loops other than `for <name> in range(<literal>)`, a loop variable that is read, `raise <OSError '
          'subclass>(..)` fail closed.',
 )
 
